@@ -262,8 +262,15 @@ pub fn run_case(ctx: &Ctx, case: u64, ev: &mut Ev) {
 }
 
 fn run_generated(case: u64, rng: &mut Rng, ev: &mut Ev) {
-    let n = 1 + rng.below(4);
-    let (p, class) = gen_system(rng, n);
+    let n = if rng.chance(0.1) { 5 + rng.below(3) } else { 1 + rng.below(4) };
+    let (mut p, class) = gen_system(rng, n);
+    if rng.chance(0.1) {
+        // pile up more cuts (up to ~20 rows)
+        for _ in 0..(5 + rng.below(10)) {
+            p.mat.push(gen::nonzero_row(rng, n, Regime::Int));
+            p.bias.push(rng.int(0, 6) as f64);
+        }
+    }
     let lp = p.to_poly();
     ev.evaluations += 1;
     ev.inc(&format!("class_{}", class));
